@@ -15,27 +15,32 @@ RULE = ("sp.hist cases (build, then insert/overwrite/scale/transpose steps; afte
         "(a) every entry pattern (all 2^(r*c) subsets) of every shape r,c <= 3 in two triplet orders (quick: the second order for a quarter of the 3x3 patterns; thorough: three orders, plus shapes 2x4/4x2) "
         "followed by transpose + insert, (b) every permutation of triplet lists with <= 4 entries (<= 5 thorough), (c) random histories of "
         "3..10 steps on shapes <= 8x8 built from triplets or raw arrays, with forced empty first/last rows and columns and the empty "
-        "matrix, (d) tie-only streams: duplicate positions, out-of-range triplets, malformed raw arrays, out-of-range get/insert "
-        "(sp.probe) on every shape <= 3x3, f64 / Complex<f64> histories; "
-        "round four (structured classes, every class of every dimension in every run, pairings rotate with the seed; one new case in four carries a model term in the quick tier): "
+        "matrix, (d) tie-only streams: duplicate positions, out-of-range triplets, malformed raw arrays, the out-of-range positions of get/insert "
+        "(sp.probe at every position 0..r+1 x 0..c+1 of every shape <= 3x3; the in-range probes are judged by the oracle); history-f64 / history-cplx (f64 / Complex<f64> histories) are NOT tie-only: "
+        "the reference-model oracle judges them (values by same_value: equal or within 2^-40 relative) and they are tied to the float instance of the model (bit-identical as a rule; the tie counts a stream as `close`, not as a difference, when every float agrees within 1e-10 of the largest magnitude of its group of floats); "
+        "round four (structured classes, every class of every dimension in every run, pairings rotate with the seed; one new case in four carries a model term in the quick tier -- counted per element kind "
+        "in the float families, so that f64 and Complex<f64> both carry terms in every run, and every fourth large-full case; all in the thorough tier): "
         "(e) op-pairs: every ordered pair of 14 operation classes (insert fresh / first cell / last cell / a stored zero, overwrite with another / the same / a zero value, "
         "scale by 0, 1, -1, 2, 1/2, random, transpose) + a third step on 14 small structured matrices, (f) structured-patterns: 25 named structures (empty, single entry in every corner, "
         "diagonal, full, full but one, full / empty first / last row / column, checker, triangular, border, ...) on the shape classes 1x1, 1xn, nx1, wide, tall, square, 8x8 with the value classes "
         "random / all ones / all equal / opposite signs / stored zeros / 0,1,-1,2,1/2 / huge+tiny and six construction forms, (g) fill-by-insert: matrices built by insertion only until full, then overwritten, "
-        "(h) large-full: 8x8 / 8x7 / 7x8 / 8x1 / 1x8 full or with one hole (up to 64 stored entries), (i) history-long: 12..24 steps, (j) structured-f64 / structured-cplx with signed zeros, 2^+-200, "
+        "(h) large-full: 8x8 / 8x7 / 7x8 / 8x1 / 1x8 / 8x3..8x6 / 5x8 / 6x8 full or with one hole (up to 64 stored entries; a tall shape with several columns among the termed ones of every run), (i) history-long: 12..24 steps, (j) structured-f64 / structured-cplx with signed zeros, 2^+-200, "
         "+-i, axis-aligned and unit-modulus entries and scale factors; the reference-model oracle now also judges the f64 / Complex<f64> histories and the in-range probes; "
         "distinct = distinct executor line; "
         "non-trivial = at least two stored entries on a shape with r,c >= 2, or a case that must panic")
 TRUSTED = ["Coq 8.16.1 kernel + vm_compute", "Rust executor /verif/harness (Rat = i128 rationals)",
            "python driver: generators, dictionary-of-keys reference, wf predicate, stream comparators",
-           "hand-written Gallina model coq/Model/Sparse.v tied to src/sparse.rs:1-300 by differential execution (Rat vs Qc exact; f64/Complex vs primitive floats, bitwise)",
+           "hand-written Gallina model coq/Model/Sparse.v tied to src/sparse.rs:1-300 by differential execution (Rat vs Qc exact; f64/Complex vs primitive floats: bit-identical, or counted `close` within 1e-10 / 1e-12 of the largest magnitude of a group of floats)",
            "std semantics as modelled: Vec::sort_by_key is the stable sort by column (modelled by a stable insertion sort); drain(..) visits in order"]
 ASSUMPTIONS = ["Rust semantics of Vec/usize as modelled (checked indexing, debug-profile overflow checks)",
                "the dump is canonical in the order of entries within one column (that order is not part of any view or of well-formedness)",
                "the sampled cases are where model and code were compared; the theorems are about the model"]
 UNPROVED = ["behaviour on DUPLICATE positions is outside the property's quantifier but specified and proved (block dups of Props/C06.v: get_first_duplicate, to_dense_last_duplicate, views_with_duplicates, views_agree_iff, from_triplets_duplicates, insert_with_duplicates, transpose_is_stable_sort, history_with_duplicates: get returns the first stored duplicate, to_dense the last, the products their sum, for every well-formed storage); behaviour on MALFORMED raw arrays is tied (model = implementation), not specified",
             "from_vecs is an echo of its arguments (from_vecs_wf: well-formed arrays are returned as they are); what it does with malformed arrays is tied, not specified",
-            "the f64 / Complex<f64> instances are tied bitwise and searched by the reference model (values up to the rounding of one product per scale step); nothing about C06 depends on arithmetic laws"]
+            "the f64 / Complex<f64> instances are tied to the float instance of the model (bit-identical, or counted `close` within 1e-10 of the largest magnitude of a group of floats) and searched by the reference model, "
+            "which compares every stored / dumped float value with sparselib.same_value: equal, or within 2^-40 RELATIVE (f64: of the larger of the two magnitudes; Complex<f64>: per component, or both components within 2^-40 of "
+            "the largest component) -- far above the rounding of the one product per scale step, far below any wrong entry; non-finite values must agree exactly (NaN with NaN); positions, counts and the structure are exact; "
+            "nothing about C06 depends on arithmetic laws"]
 
 MANIFEST = dict(
     text=("Theorems about the Gallina model of src/sparse.rs (six public CSC fields, every guard and index checked), for all shapes, "
@@ -261,6 +266,10 @@ def special_families(g0, thorough):
     def termed():
         count[0] += 1
         return thorough or (count[0] % 4 == seedrot)
+    def termed_kind(j):
+        """for families that alternate two element kinds on the parity of h: j = h // 2 counts the cases of ONE kind (a counter
+        shared by both kinds would give every model term of a run to one of them)"""
+        return thorough or (j % 4 == seedrot)
     rv = lambda rng, e: val(rng, e)
     # (e) every ordered pair of operation classes (fresh / first-cell / last-cell insertion, overwrite with another, the same or
     #     a zero value, insertion of a stored zero, scale by 0, 1, -1, 2, 1/2, random, transpose) on small structured matrices
@@ -307,14 +316,18 @@ def special_families(g0, thorough):
     # (h) the largest shapes, full or with a single hole (more stored entries than the random histories reach)
     g = g0.fork("large")
     k = g.below(1000)
-    for (r, c, pat) in [(8, 8, "full"), (8, 8, "full-but-last"), (8, 7, "full-but-first"), (7, 8, "full"), (8, 1, "full"), (1, 8, "full"),
-                        (8, 8, "checker"), (8, 8, "border"), (7, 8, "full-but-last"), (6, 8, "full"), (8, 6, "full-but-first"), (8, 8, "full-but-first")]:
+    for n, (r, c, pat) in enumerate([(8, 8, "full"), (8, 8, "full-but-last"), (8, 7, "full-but-first"), (7, 8, "full"), (8, 1, "full"), (1, 8, "full"),
+                        (8, 8, "checker"), (8, 8, "border"), (7, 8, "full-but-last"), (6, 8, "full"), (8, 6, "full-but-first"), (8, 8, "full-but-first"),
+                        # so that every residue of n mod 4 holds a tall shape with several columns (rows > cols is what seeded mutation C06-2 needs)
+                        (8, 5, "full"), (8, 4, "full-but-last"), (5, 8, "full"), (8, 3, "full")]):
         k += 1
         cells = pattern(pat, r, c)
         vals = fill_values(g, 'rat', FILLS[k % len(FILLS)], len(cells), rv)
         b = build_of(g, BUILD_FORMS[k % len(BUILD_FORMS)], r, c, cells, vals)
         cl = ("insert-last-cell", "overwrite", "transpose", "insert-first-cell", "scale--1")
-        cases.append(mk2('rat', b, ops_by_class(g, 'rat', cl, r, c, cells, vals), "large-full", thorough and termed()))
+        # quick tier: every fourth one carries a model term (which one rotates with the seed; three per run, each a
+        # history of six dumped states with up to 64 stored entries: well inside the vm_compute budget of the tier)
+        cases.append(mk2('rat', b, ops_by_class(g, 'rat', cl, r, c, cells, vals), "large-full", termed() if thorough else (n % 4 == seedrot)))
     # (i) long histories (12..24 steps)
     g = g0.fork("long")
     for h in range(40 if thorough else 10):
@@ -337,7 +350,7 @@ def special_families(g0, thorough):
         cl = [g.choice(OP_CLASSES) for _ in range(g.range(1, 4))]
         ops = ops_by_class(g, elt, cl, r, c, cells, vals)
         if h % 5 == 0: ops.append(('scale', g.choice(special_scalars(elt))))
-        cases.append(mk2(elt, b, ops, "structured-" + elt, termed()))
+        cases.append(mk2(elt, b, ops, "structured-" + elt, termed_kind(h // 2)))
     return cases
 
 def case_from_json(j):
